@@ -174,6 +174,10 @@ def scenarios(algs):
                     [('org', c, None, [1]), ('disp',), ('org', p_, None, [1, 2]), ('disp',),
                      ('replyu', p_, 2, 'success-new'), ('replyu', p_, 1, 'failure'), ('disp',),
                      ('replyu', c, 2, 'success'), ('replyu', c, 1, 'success-new'), ('pump', 'success', None)]))
+    if not any(a.get('feedback') for a in algs):
+        roots_ = [i for i in range(n) if not algs[i]['inputs'] and algs[i]['kind'] != 'analysis']
+        if roots_:
+            out.append(('epochs', [('epochs', [(roots_[0], 1), (roots_[0], 1), (roots_[-1], 2), (roots_[0], 1)])]))
     out.append(('dbfault-first-job', [('orgall', None, 'all'), ('dbfail',), ('disp',), ('disp',),
                                       ('pump', 'success', None)]))
     out.append(('waiters', [('orgall', None, 'all'), ('waiters',), ('pump', 'success', None), ('joinwaiters',)]))
@@ -527,6 +531,85 @@ class Run:
             th.join(1.0)
         self.waiter_threads = []
 
+    # ---- C02 consequence clause: stored results at quiescence = from-scratch run
+    def content(self, latest, epochs, i, t, k):
+        """deterministic output of value k of algorithm i on target t: a digest of the latest
+        contents of (a subset of) its declared input values and, for roots, of an epoch"""
+        import hashlib
+
+        a = self.algs[i]
+        declared = []
+        for (j, v) in a['inputs']:
+            vs = self.algs[j]['values'] if v is None else [v]
+            declared.extend((j, x) for x in vs)
+        declared = sorted(set(declared))
+        used = declared if k == 0 else declared[: (len(declared) + 1) // 2]
+        parts = [self.env.tags[i], str(k), t]
+        for (j, v) in used:
+            src_kind = self.algs[j]['kind']
+            if src_kind == 'analysis':
+                parts.append(latest.get((j, ALL, v), '-'))
+            elif a['kind'] == 'analysis':
+                parts.extend(latest.get((j, u, v), '-') for u in self.env.targets)
+            else:
+                parts.append(latest.get((j, t, v), '-'))
+        if not a['inputs']:
+            e = epochs.get((i, t), 0)
+            parts.append(str(e if k == 0 else e // 2))
+        return hashlib.sha1('|'.join(parts).encode()).hexdigest()[:12]
+
+    def execute(self, x, t):
+        """what a worker does for unit (x, t): compute, store, report which values are new"""
+        i = self.idx[x]
+        news = []
+        for k, v in enumerate(self.algs[i]['values']):
+            c = self.content(self.latest, self.epochs, i, t, k)
+            if c not in self.seen:
+                self.seen.add(c)
+                news.append(f'{x}.sv.{v}')
+            self.latest[(i, t, v)] = c
+        self.ran.add((i, t))
+        return news
+
+    def epoch_run(self, bumps, limit):
+        """full run of the engine, then root re-runs with changed content, each driven to
+        quiescence; finally the store must equal a from-scratch evaluation"""
+        env = self.env
+        self.latest, self.epochs, self.seen, self.ran = {}, {}, set(), set()
+
+        def to_idle():
+            for _ in range(limit):
+                released = self.do_dispatch()
+                if not self.inflight and not released:
+                    return True
+                for (x, t) in list(self.inflight):
+                    if (x, t) in self.put:
+                        self.do_reply(x, t, 'success', self.execute(x, t))
+            return False
+
+        self.do_organize(list(env.tags), None, list(env.targets))
+        ok = to_idle()
+        for (root, t) in bumps:
+            self.epochs[(root, t)] = self.epochs.get((root, t), 0) + 1
+            self.do_organize([env.tags[root]], None, [t])
+            ok = to_idle() and ok
+        if not ok:
+            self.hit('C04', 'no-quiescence', 'epoch scenario did not reach quiescence')
+            return
+        # from-scratch evaluation in dependency order with the final epochs
+        fresh = {}
+        order = list(range(len(self.algs)))  # inputs refer to earlier algorithms only
+        for i in order:
+            tgs = [ALL] if self.algs[i]['kind'] == 'analysis' else list(env.targets)
+            for t in tgs:
+                for k, v in enumerate(self.algs[i]['values']):
+                    fresh[(i, t, v)] = self.content(fresh, self.epochs, i, t, k)
+        wrong = [(env.tags[i], t, v) for (i, t, v), c in fresh.items()
+                 if self.latest.get((i, t, v)) != c]
+        if wrong:
+            self.hit('C02', 'stale-result-at-quiescence',
+                     f'stored results differ from a from-scratch run for {wrong[:4]} after root re-runs {bumps}')
+
     def drain(self, limit):
         """C04 quiescence: always-answering workers, no more external events"""
         env = self.env
@@ -629,6 +712,10 @@ def run_history(env, res, want, algs, ops, r, lines, pending, tag):
             run.do_organize(list(env.tags), op[1], tg)
         elif kind == 'pump':
             run.pump(op[1], op[2], 4 * len(env.tags) * (len(env.targets) + 2) + 8)
+        elif kind == 'epochs':
+            if 'C02' in want and len(env.targets) >= 2:
+                bumps = [(r_, env.targets[k - 1]) for r_, k in op[1]]
+                run.epoch_run(bumps, 4 * len(env.tags) * (len(env.targets) + 2) + 8)
         elif kind == 'replyu':
             x = env.tags[op[1]]
             t = env.targets[op[2] - 1] if 0 < op[2] <= len(env.targets) else None
